@@ -569,3 +569,11 @@ mod tests {
         assert!(!r.gather().is_empty());
     }
 }
+
+#[cfg(prometheus_verif)]
+impl Registry {
+    /// Verification hook: address of the lock protecting the registry core.
+    pub fn verif_lock_addr(&self) -> usize {
+        self.r.addr()
+    }
+}
